@@ -7,7 +7,7 @@ from harness.core import MachineryError
 META = {
     "id": "C18",
     "level": "model_checking",
-    "technique": "TLA+ spec Msbar: every sign pattern (quark x reference scale vs mass x reference scale vs coupling reference x nfref, 72 patterns) with the transcribed acceptance table checked by TLC against an independent statement of consistency and of the target patch; numeric instances of every pattern run through the real msbar_masses.compute (orders 1-4, exact/expanded); outcome class, sortedness and the fixed-point residual class (m(m)=m re-evaluated with the repository's evolve in the adjoining patch) and, where the path from the reference to the fixed point crosses two or more matching scales, the class of 'direct evolution = evolution in two legs' judged by TLC (MsbarTrace)",
+    "technique": "TLA+ spec Msbar: every sign pattern (quark x reference scale vs mass x reference scale vs coupling reference x nfref, 72 patterns) with the transcribed acceptance table checked by TLC against an independent statement of consistency and of the target patch; numeric instances of every pattern run through the real msbar_masses.compute (orders 1-4, exact/expanded); outcome class, sortedness and the fixed-point residual class (m(m)=m re-evaluated with the repository's evolve in the adjoining patch) and, where the path from the reference to the fixed point crosses two or more matching scales, the class of 'direct evolution = evolution in two legs' judged by TLC (MsbarTrace); the decoupling relation itself: the mass taken across one matching scale with no evolution (returned ratio of squared masses against zeta_m^2 from the code's own table) and the RG law of the table's logarithms (per power of L, closed on the code's own gamma_m, beta0 and MSBAR coupling decoupling), classes judged by TLC",
     "text": "B1 exhaustive over the 72 patterns. B2/B3: random numeric inputs covering consistent and inconsistent patterns for all three quarks and nfref 3-6; consistent inputs must return without error (any exception other than ValueError is a crash violation), sorted, with |m(m)-m|/m <= 1e-6 (clean tree: <= 1e-13); inconsistent ones must raise ValueError.",
     "note": "Half of the numeric instances use matching ratios in [0.8,1.3] and xif^2 in [0.5,2]; the fixed point is re-evaluated with the documented coupling (thresholds at m^2 k^2 xif^2); the decoupling relations' logarithms are covered by C16/C22. Level model_checking for the bookkeeping table, exploration for the numeric fixed point.",
     "design_ref": "5 C18",
@@ -22,6 +22,12 @@ def _inst(seed):
     return msbar.instance(seed)
 
 
+def _cross(seed):
+    from harness.drivers import msbar
+
+    return msbar.crossing(seed)
+
+
 def run(chk):
     r = chk.tlc("MsbarMC", "MsbarMC.cfg", workers=4, label="acceptance table vs consistency statement (72 patterns)")
     if r.violated:
@@ -30,6 +36,16 @@ def run(chk):
     seeds = [chk.rng.randrange(2**31) for _ in range(n)]
     with mp.get_context("fork").Pool(16) as pool:
         recs = pool.map(_inst, seeds, chunksize=8)
+    ncross = 1000 if chk.thorough() else 200
+    with mp.get_context("fork").Pool(16) as pool:
+        crosses = pool.map(_cross, [chk.rng.randrange(2**31) for _ in range(ncross)], chunksize=8)
+    from harness.drivers import msbar as _msbar
+
+    laws = [_msbar.decoupling_law(nf) for nf in (3, 4, 5)]
+    for x in crosses:
+        chk.count(1, ("cross", x["order"], x["quark"], x["dir"], x["unit_ratio"]), nontrivial=not x["exc"])
+    chk.sample(crosses[0])
+    chk.sample(laws[0])
     pats = set()
     for rec in recs:
         for q in rec["quarks"]:
@@ -38,7 +54,9 @@ def run(chk):
     chk.note("patterns_exercised", len(pats))
     chk.note("paths_with_two_or_more_matchings_composed", sum(1 for rec in recs for c in rec.get("comp", []) if c != 99))
     chk.sample(recs[0])
-    chk.sample(next(x for x in recs if x["outcome"] == "ok"))
+    chk.sample(next(x for x in recs if x.get("outcome") == "ok"))
+    nfix = len(recs)
+    recs = recs + [{k: v for k, v in x.items() if k != "values"} for x in crosses] + laws
     res = chk.tlc("MsbarTrace", "MsbarTrace.cfg", trace=recs, workers=1, label="real outcomes judged")
     if res.violated or not res.completed:
         raise MachineryError(f"MsbarTrace not accepted: {res.out[-2000:]}")
@@ -46,7 +64,14 @@ def run(chk):
     seen = set()
     for t in res.printed("BAD"):
         rec = recs[t[1] - 1]
-        if t[2].startswith("C18:"):
+        if t[2].startswith("C18:") and "ev" in rec:
+            fp = t[2] if rec["ev"] == "cross" else f"{t[2]} nf={rec['nf']}"
+            if fp in seen:
+                continue
+            seen.add(fp)
+            full = crosses[t[1] - 1 - nfix] if rec["ev"] == "cross" else rec
+            chk.violation(fp, f"{t[2]}: {full}", full)
+        elif t[2].startswith("C18:"):
             pat = [(q["q"], q["rm"], q["rq"]) for q in rec["quarks"]]
             fp = f"{t[2]} nfref={rec['nfref']}"
             if fp in seen:
@@ -55,7 +80,7 @@ def run(chk):
             chk.violation(fp, f"{t[2]}: nfref={rec['nfref']} patterns={pat} order={rec['order']} method={rec['method']} {rec.get('msg', '')}", rec)
         else:
             chk.diag(f"{t[2]} seed={rec['seed']}")
-    bad = [dict(next(x for x in recs if x["outcome"] == "ok"), outcome="TypeError")]
+    bad = [dict(next(x for x in recs if x.get("outcome") == "ok"), outcome="TypeError")]
     r2 = chk.tlc("MsbarTrace", "MsbarTrace.cfg", trace=bad, workers=1, label="corrupted outcome (must be rejected)")
     if not [t for t in r2.printed("BAD") if t[2].startswith("C18:")]:
         raise MachineryError("binding demonstration failed")
